@@ -139,7 +139,7 @@ def build_doc(rng, pages, pre=()):
                 arr = [sref(k, s_) for k, s_ in zip(streams.keys, streams)]
                 contents = arr[0] if streams.form == "single" else arr
             if streams.form == "indirect":
-                ak = ("arr", streams.arrkey if streams.arrkey is not None else len(refs))
+                ak = ("arr", "shared", streams.arrkey) if streams.arrkey is not None else ("arr", "page", len(refs))
                 if ak not in shared:
                     shared[ak] = d.add(contents)
                 contents = shared[ak]
